@@ -746,6 +746,18 @@ def call_builtin(it, b, args, kwargs, node):
         r = c.fresh_ref('str', 'str', distinct=False)
         c.assume(sval(r.e) == str_of(c.to_ref(v)))
         return r
+    if n == 'getattr' and len(args) == 3 and isinstance(args[0], SRef) and args[0].pytype in it.src.classes \
+            and isinstance(args[1], str):
+        # getattr(obj, 'name', default): the attribute if the object has it, else the default
+        o, a, dflt = args
+        has = call_builtin(it, SBuiltin('hasattr'), [o, a], {}, None)
+        if has is True:
+            return it.get_attr(o, a)
+        if has is False:
+            return dflt
+        if c.branch(c.to_bool(has), 'getattr-has-' + a):
+            return it.get_attr(o, a)
+        return dflt
     if n == 'getattr' and len(args) == 2 and isinstance(args[0], SRef) and args[0].pytype in it.src.classes:
         # getattr(obj, name): the normal lookup wins whenever `name` is a real attribute of the object (instance
         # attribute, method, class attribute, inherited dict API); only otherwise __getattr__(name) is consulted
@@ -856,6 +868,9 @@ def call_builtin(it, b, args, kwargs, node):
         for o in getattr(c, 'uuids', []):
             c.assume(sval(o) != sval(r.e))       # uuid4 uniqueness (assumed)
         c.uuids = getattr(c, 'uuids', []) + [r.e]
+        hook = w.hooks.get('uuid4_is_new')
+        if hook:
+            hook(it, r)          # ... nor does it repeat a value the caller already holds (assumed; stated by the target)
         return r
     if n == 'uuid.uuid5':
         nm = args[1]
